@@ -5,6 +5,7 @@ CONSTANTS
   Offsets <- TraceOffsets
   BlockSize <- TraceBlock
   Known = @KNOWN@
+  History = FALSE
   Guard = TRUE
 CONSTRAINT Record
 POSTCONDITION Accepted
